@@ -112,6 +112,52 @@ def query_identifiers(run, T, pool, n):
     return len(plan)
 
 
+def old_syntax_expressions(run, T, pool, n):
+    """the expression grammar is shared by both syntaxes: in the 3.x syntax the same texts give the same trees (texts with words that syntax does not have - xor, the
+    quantifiers - left out), and =< / => are further spellings of <= / >= there (and unknown symbols in the 4.x syntax)"""
+    rng = run.rng
+    words = {'v0', 'v1', 'v2', 'v3', 'b0', 'b1', 'x0', 'x1', 'arr', 'arr2', 'and', 'or', 'not', 'imply'}      # names of the 3.x fixture and the words that syntax has
+    pool = [(c, r) for c, r in pool if set(re.findall(r'[A-Za-z_]\w*', T.text(r['min'], fields=[]))) <= words]
+    job = vlib.Job()
+    job.case('oo', old=True).model('xta', 'int v0, v1, v2, v3; int b0, b1; clock x0, x1; int d0; int arr[4]; int arr2[3][3];\nprocess P { state A; init A; }\nsystem P;\n')
+    plan = []
+    for c, r in rng.sample(pool, min(n, len(pool))):
+        txt = T.text(r['min'], fields=[])
+        if re.search(r'\b(s|s2|sa|fn\d|d0)\b|\.|\d\.\d|true|false', txt):
+            continue        # the 3.x fixture has no records, functions or doubles
+        exp = T.expected(exprgen.parse_sx(r['norm']))
+        alt = ' '.join({'<=': '=<', '>=': '=>'}.get(t, t) for t in txt.split(' '))
+        plan.append((c, txt, exp, alt))
+    for c, txt, exp, alt in plan:
+        job.expr(txt)
+        job.expr(alt)
+    job.end()
+    j2 = vlib.Job()
+    j2.case('nn', old=False).model('xta', exprgen.FIXTURE_XTA)
+    alts = [p for p in plan if p[3] != p[1]][:40]
+    for c, txt, exp, alt in alts:
+        j2.expr(alt)
+    j2.end()
+    res = vlib.run_jobs(job, shards=1)
+    res2 = vlib.run_jobs(j2, shards=1)
+    cs = res['oo']
+    if cs['status'] != 'ok':
+        run.fail('parser crashed or stopped while parsing expressions in the 3.x syntax (%s)' % cs['status'], dict(status=cs['status']), shape='crash')
+        return 0
+    k = 1
+    for c, txt, exp, alt in plan:
+        for variant, t in (('same text', txt), ('=< / =>', alt)):
+            op, arg, lines = cs['cmds'][k]; k += 1
+            tree = next((l[5:] for l in lines if l.startswith('tree ')), None)
+            if tree != exp:
+                run.fail('3.x syntax (%s): %r parsed to %s, expected %s' % (variant, t, tree, exp), dict(text=t, expected=exp, got=tree, errors=[l for l in lines if l.startswith('error')][:2]),
+                         shape='old-syntax:' + ('alias' if t != txt else c['name'].split(':')[0]))
+    for (c, txt, exp, alt), (op, arg, lines) in zip(alts, res2['nn']['cmds'][1:]):
+        if not any(l.startswith('error') for l in lines):
+            run.fail('4.x syntax: %r (with the 3.x spellings =< / =>) is accepted' % alt, dict(text=alt, lines=lines[:3]), shape='old-syntax:alias-accepted-in-new')
+    return 2 * len(plan) + len(alts)
+
+
 def check(run):
     thorough = run.tier == 'thorough'
     try:
@@ -288,6 +334,7 @@ def check(run):
         # ---- expressions inside queries: the property syntax has words of its own (sup, inf, bounds, simulation and the letters of the temporal operators) that
         # remain ordinary names where a name is expected; the tree of E<> (e) under a renaming of the variables to those words is the renamed tree
         qn = query_identifiers(run, T, [(c, r) for c, r in zip(cases, rend) if not c['fields']], 400 if thorough else 120)
+        qn += old_syntax_expressions(run, T, [(c, r) for c, r in zip(cases, rend) if not c['fields']], 1500 if thorough else 500)
         # calls whose callee is a process set: the arguments are lookups, in the order written
         import scopegen
         nps = scopegen.process_set_probes(run, vlib, rng, 40 if thorough else 12, types=False)
